@@ -35,4 +35,6 @@ VARIANTS = [
     dict(name='benign-same_interactions-length-guarded-zip', expect='silent', edits=[
         dict(file=M, old="        return all(\n            self.interactions[interaction_type] == other.interactions[interaction_type]\n            for interaction_type in keys_self\n        )",
              new="        for interaction_type in keys_self:\n            if len(self.interactions[interaction_type]) != len(other.interactions[interaction_type]):\n                return False\n            for mine, theirs in zip(self.interactions[interaction_type], other.interactions[interaction_type]):\n                if mine != theirs:\n                    return False\n        return True")]),
+    dict(name='integers-through-isclose (original defect F24)', expect='fire', key='DT-same-moltype|are_different', edits=[
+        dict(file='vermouth/utils.py', old="    if isinstance(left, numbers.Integral):\n", new="    if False and isinstance(left, numbers.Integral):\n")]),
 ]
